@@ -207,6 +207,11 @@ class Session:
         jid = self.jobs[gid]["id"]
         if jid is None or len(self.live_jobs()) == 1 and self.rng.random() < 0.3:
             if len(self.live_jobs()) == 1:
+                # the bare form means "the only job" only once the shell has noticed that the others are gone: a job whose
+                # members died a moment ago (a pending SIGTERM delivered by the previous `bg`) may still be in its table,
+                # and which of two entries a bare `bg` / `fg` takes is not defined.  One empty line lets the prompt poll.
+                time.sleep(0.15)
+                self.plain_line("empty")
                 return ""
             self.jobs_cmd()
             jid = self.jobs[gid]["id"]
@@ -465,7 +470,12 @@ class Session:
                 gid = self.rng.choice(live)
                 sig = self.rng.choice([signal.SIGSTOP, signal.SIGCONT, signal.SIGKILL, signal.SIGTERM])
                 self.signal_members(gid, sig, self.rng.random() < 0.6)
-                self.plain_line("empty")
+                # the change is first noticed by an empty line (the prompt's own poll) - or by `jobs` itself, whose
+                # silent poll must record it just the same
+                if self.rng.random() < 0.6:
+                    self.plain_line("empty")
+                else:
+                    self.jobs_cmd()
             elif r < 0.90 and self.running_bg_jobs():
                 if self.rng.random() < 0.3:
                     self.fg_finished_job(self.rng.choice(self.running_bg_jobs()))
